@@ -30,8 +30,13 @@ HARMLESS_KEYS = {'default', 'rename_all', 'alias', 'deny_unknown_fields', 'bound
 
 def harmless(attr):
     """helper attributes that keep writer and reader symmetric and lossless for values the writer produced"""
+    keys = HARMLESS_KEYS
+    if attr.startswith('borsh'):
+        # borsh helpers other than trait bounds / the crate path (skip, init, ...) change the encoding one-sidedly or drop data
+        keys = {'bound', 'crate'}
+        attr = 'serde' + attr[len('borsh'):]
     if not attr.startswith('serde'):
-        return False          # every borsh helper (skip, init, ...) changes the encoding one-sidedly or drops data
+        return False
     body = attr[len('serde'):].strip()
     if body.startswith('(') and body.endswith(')'):
         body = body[1:-1]
@@ -50,10 +55,10 @@ def harmless(attr):
     if cur.strip():
         items.append(cur.strip())
     for it_ in items:
-        key = it_.split()[0] if it_.split() else ''
-        if key in HARMLESS_KEYS:
+        key = it_.replace('(', ' ').replace('=', ' ').split()[0] if it_.strip() else ''
+        if key in keys:
             continue
-        if key == 'rename' and '(' not in it_:
+        if key == 'rename' and '(' not in it_ and keys is HARMLESS_KEYS:
             continue          # rename = "x": same name on both sides
         return False
     return True
